@@ -62,9 +62,12 @@ def main(argv=None):
                 "PYTHONDONTWRITEBYTECODE": "1", "VERIF_SHARD_BUDGET_S": str(budget), "COLA_VERIF": "1",
                 "PYTHONWARNINGS": "ignore"})
     env.pop("PYTHONPATH", None)
-    if not a.replay:  # replays of earlier runs are stale once a new run starts
+    # replays live in replays/<prop>/<tier>-s<seed>/ (runs against a scratch copy: .../scratch/); a new run of the same
+    # tier and seed makes the earlier replays of that run stale
+    replay_dir = os.path.join(HERE, "replays", prop, f"{tier}-s{a.seed}" if os.path.abspath(a.repo) == "/repo" else "scratch")
+    if not a.replay:
         import shutil
-        shutil.rmtree(os.path.join(HERE, "replays", prop), ignore_errors=True)
+        shutil.rmtree(replay_dir, ignore_errors=True)
     tmpd = tempfile.mkdtemp(prefix=f"verif_{prop}_")
     pending = list(range(nshards))
     running = {}
@@ -170,7 +173,7 @@ def finish(prop, tier, a, meta, results, nshards, t0, tmpd):
         if f["fp"] in seen_fp:
             continue
         seen_fp.add(f["fp"])
-        d = os.path.join(HERE, "replays", prop)
+        d = replay_dir
         os.makedirs(d, exist_ok=True)
         import hashlib
         name = hashlib.md5(f["fp"].encode()).hexdigest()[:10] + ".json"
